@@ -38,7 +38,11 @@ func main() {
 			fmt.Fprintln(os.Stderr, err)
 			os.Exit(2)
 		}
-		fmt.Println(rules.DumpFlowsJSON(p))
+		which := ""
+		if len(os.Args) > 2 {
+			which = os.Args[2]
+		}
+		fmt.Println(rules.DumpFlowsJSON(p, which))
 	case "tierb":
 		p, err := load.Load(load.Config{Dir: "/repo"})
 		if err != nil {
